@@ -275,6 +275,67 @@ func runC09(c *an.Ctx) {
 		c.Check(len(hb.Body.List) == 0, "C09.discard", "(hiddenBool).Render/empty", hb.Pos(), "hiddenBool renders nothing", "hiddenBool.Render has a body: includeIfExists' result would be rendered")
 	}
 
+	// includeIfExists tells "exists but is broken" (an error, like include) from "does not exist" (false) by
+	// the template that accompanies the error (t != nil && err != nil): every link of the lookup chain must
+	// hand the (template, error) pair on as it received it
+	nPairs := 0
+	for _, name := range []string{"(*Set).GetTemplate", "(*Set).getSiblingTemplate", "(*Set).getTemplate", "(*Set).getTemplateFromLoader", "(*Set).loadFromFile"} {
+		f := p.Fn(name)
+		if f == nil {
+			continue
+		}
+		finfo := f.Info()
+		// error variables received together with a template: e ← t
+		partner := map[types.Object]types.Object{}
+		an.InspectOwn(f, func(n ast.Node) bool {
+			as, ok := n.(*ast.AssignStmt)
+			if !ok || len(as.Lhs) != 2 || len(as.Rhs) != 1 {
+				return true
+			}
+			call, ok := an.Unparen(as.Rhs[0]).(*ast.CallExpr)
+			if !ok {
+				return true
+			}
+			tv, has := finfo.Types[call]
+			if !has {
+				return true
+			}
+			tup, ok := tv.Type.(*types.Tuple)
+			if !ok || tup.Len() != 2 || an.TypeName(tup.At(0).Type()) != "*jet.Template" || !isErrorType(tup.At(1).Type()) {
+				return true
+			}
+			tid, ok1 := as.Lhs[0].(*ast.Ident)
+			eid, ok2 := as.Lhs[1].(*ast.Ident)
+			if ok1 && ok2 {
+				partner[an.ObjOf(finfo, eid)] = an.ObjOf(finfo, tid)
+			}
+			return true
+		})
+		an.InspectOwn(f, func(n ast.Node) bool {
+			ret, ok := n.(*ast.ReturnStmt)
+			if !ok || len(ret.Results) != 2 {
+				return true
+			}
+			eid, ok := an.Unparen(ret.Results[1]).(*ast.Ident)
+			if !ok {
+				return true
+			}
+			want, has := partner[an.ObjOf(finfo, eid)]
+			if !has || want == nil {
+				return true
+			}
+			nPairs++
+			tid, isId := an.Unparen(ret.Results[0]).(*ast.Ident)
+			if isId && an.ObjOf(finfo, tid) == want {
+				c.OK("C09.discard", f.Name+"/pair", ret.Pos(), "the template is returned together with the error it was received with")
+			} else {
+				c.Bad("C09.discard", f.Name+"/pair", ret.Pos(), nil, "%s returns the error of a lookup without the template that came with it (%s): includeIfExists can no longer tell a template that exists but does not parse from a missing one and silently renders nothing", f.Name, an.Str(ret.Results[0]))
+			}
+			return true
+		})
+	}
+	c.Expect("C09.discard", "returns handing on a (template, error) pair", nPairs, 1)
+
 	// ---------------------------------------------------------------- C09.ret
 	c09ret(c)
 }
@@ -447,15 +508,15 @@ func c09ret(c *an.Ctx) {
 		o := mergeTmp[ms]
 		ok := len(pr.At[ms]) > 0
 		for _, st := range pr.At[ms] {
-			if !an.FactIs(st, o.Name()+".IsValid()", true) {
+			if !an.FactIs(st, an.RoleOf(o)+".IsValid()", true) {
 				ok = false
 			}
 		}
 		if ok {
 			merged[o] = true
-			c.OK("C09.ret", "(*Runtime).executeList/merge:"+o.Name(), ms.Pos(), "the nested value %q is merged only when it is valid", o.Name())
+			c.OK("C09.ret", "(*Runtime).executeList/merge:"+an.RoleOf(o), ms.Pos(), "the nested value %q is merged only when it is valid", o.Name())
 		} else {
-			c.Bad("C09.ret", "(*Runtime).executeList/merge:"+o.Name(), ms.Pos(), nil, "the nested value %q overwrites the result without an IsValid() guard: a list without return erases an earlier return value", o.Name())
+			c.Bad("C09.ret", "(*Runtime).executeList/merge:"+an.RoleOf(o), ms.Pos(), nil, "the nested value %q overwrites the result without an IsValid() guard: a list without return erases an earlier return value", o.Name())
 		}
 	}
 	n := 0
@@ -472,7 +533,7 @@ func c09ret(c *an.Ctx) {
 				}
 			}
 			if !found {
-				c.Bad("C09.ret", "(*Runtime).executeList/merge:"+o.Name(), call.Pos(), nil, "the value of the nested execution held in %q never reaches executeList's result: a return executed inside it is lost", o.Name())
+				c.Bad("C09.ret", "(*Runtime).executeList/merge:"+an.RoleOf(o), call.Pos(), nil, "the value of the nested execution held in %q never reaches executeList's result: a return executed inside it is lost", o.Name())
 			}
 		}
 	}
